@@ -318,7 +318,7 @@ func enumerate(visit func(idx int64, mk func() Case)) {
 	for _, fam := range []struct {
 		kind string
 		tols []float64
-	}{{"line-small", []float64{0.04, 0.1, 0.3}}, {"line-tiny", []float64{4e-4, 1e-3, 3e-3}}} {
+	}{{"line-small", []float64{0.04, 0.1, 0.3}}, {"line-tiny", []float64{4e-4, 1e-3, 3e-3}}, {"line-huge", []float64{40 * math.Ldexp(1, 80), 100 * math.Ldexp(1, 80), 300 * math.Ldexp(1, 80)}}} {
 		for l := 3; l <= 5; l++ {
 			total := 1
 			for i := 0; i < l; i++ {
@@ -482,7 +482,7 @@ func lenClass(n int) string {
 func execute(c Case) (string, string, bool) {
 	ps := pointSet()
 	switch c.Kind {
-	case "line", "grid-line", "line-small", "line-tiny", "line-sliver", "line-witness", "line-long":
+	case "line", "grid-line", "line-small", "line-tiny", "line-huge", "line-sliver", "line-witness", "line-long":
 		li := make([]ipt, len(c.Seq))
 		if c.Kind == "line-long" {
 			li = longLine(c.Seq[0], c.Seq[1])
@@ -508,6 +508,8 @@ func execute(c Case) (string, string, bool) {
 			sc = 1000
 		} else if c.Kind == "line-tiny" {
 			sc = 1e5
+		} else if c.Kind == "line-huge" {
+			sc = math.Ldexp(1, -80) // (coordinates are divided by sc: an exact scaling by 2^80)
 		} else if c.Kind == "line-sliver" {
 			sc = c.Div
 		}
@@ -708,7 +710,7 @@ func main() {
 		}
 	}
 	r := report.New("C13", tier, "model_checking")
-	r.Rule = "E1 (isolated workers, 2 GiB address-space limit, 60 s silence horizon): every vertex sequence of length 0..6 (thorough: over 16 points) over a 12-point set with no three points collinear (verified exactly) x tolerances {0,40,100,150,300,1e9}; every sequence of length 3..5 over the same point set scaled by 1e-3 and by 1e-5 x 3 scaled tolerances each; every sequence of length 3..6 over an 8-point sliver set (flat triangles, 1..5 degree crossings; no three collinear) at the exact scales 1, 2^-8, 2^-16 x 4 tolerances; every injective sequence of length 3..8 over an 8-point witness set (two-step back-offs) x 5 tolerances and of length 7 (thorough 8) over the main set x 3 tolerances; three shapes of simple x-monotone lines of 63..1000 vertices x 5 tolerances; every sequence of length <= 4 over the plain 4x4 integer grid x 4 tolerances (termination / subsequence / tolerance clauses only); 7 polygons (holes, unclosed, degenerate rings) x 6 tolerances and all ordered pairs as MultiPolygon; two-member MultiLineStrings. Oracle (every polygon / multi case and every 8th line case also with the vertex slices cut from one flat buffer and called twice: same output, buffer not written): terminates; output is an order-preserving subsequence keeping first and last vertex; an embedding exists in which every dropped vertex is within tol of its replacing segment; exactly simple input => exactly simple output; input unchanged; multi members equal the member simplified alone. Non-trivial = calls that drop at least one vertex."
+	r.Rule = "E1 (isolated workers, 2 GiB address-space limit, 60 s silence horizon): every vertex sequence of length 0..6 (thorough: over 16 points) over a 12-point set with no three points collinear (verified exactly) x tolerances {0,40,100,150,300,1e9}; every sequence of length 3..5 over the same point set scaled by 1e-3, by 1e-5 and (exactly) by 2^80 x 3 scaled tolerances each; every sequence of length 3..6 over an 8-point sliver set (flat triangles, 1..5 degree crossings; no three collinear) at the exact scales 1, 2^-8, 2^-16 x 4 tolerances; every injective sequence of length 3..8 over an 8-point witness set (two-step back-offs) x 5 tolerances and of length 7 (thorough 8) over the main set x 3 tolerances; three shapes of simple x-monotone lines of 63..1000 vertices x 5 tolerances; every sequence of length <= 4 over the plain 4x4 integer grid x 4 tolerances (termination / subsequence / tolerance clauses only); 7 polygons (holes, unclosed, degenerate rings) x 6 tolerances and all ordered pairs as MultiPolygon; two-member MultiLineStrings. Oracle (every polygon / multi case and every 8th line case also with the vertex slices cut from one flat buffer and called twice: same output, buffer not written): terminates; output is an order-preserving subsequence keeping first and last vertex; an embedding exists in which every dropped vertex is within tol of its replacing segment; exactly simple input => exactly simple output; input unchanged; multi members equal the member simplified alone. Non-trivial = calls that drop at least one vertex."
 	sum := fault.Sweep(r, 16, 2<<20, 60*time.Second, func(idx int64) (string, interface{}) {
 		var sig string
 		var det interface{}
